@@ -15,6 +15,12 @@ def units(tier, seed):
     for vul in A.adapt.VULS:
         if ('graph', d0, vul, None, 0) not in us:
             us.append(('graph', d0, vul, None, 0))
+    if tier == 'thorough':
+        # every dealer x vulnerability combination
+        for dealer in 'NESW':
+            for vul in A.adapt.VULS:
+                if ('graph', dealer, vul, None, 0) not in us:
+                    us.append(('graph', dealer, vul, None, 0))
     for dealer in 'NESW':
         us.append(('unmerged', dealer, 'None', None, 6 if tier == 'quick' else 7))
         us.append(('walks', dealer, A.adapt.VULS[(seed + 1) % 4], None, 0))
